@@ -13,7 +13,8 @@ RULE = ('cases = packages of 0-3 resources x 0-5 rows (thorough: up to 120 rows)
         '(os._exit) before every single file operation (makedirs/open/write/flush/close/rename) and the directory and the next run are '
         'examined, (c) a step raises at every row position and at stream exhaustion; exhaustive over operation indices '
         'for each package; non-trivial = a crash point strictly inside the save; distinct = (package shape, crash point)'
-        '; round 7: a row-level step that raises StopIteration (a failure, never a quiet end), a retry of the same objects, a later step that stops reading')
+        '; round 7: a row-level step that raises StopIteration (a failure, never a quiet end), a retry of the same objects, a later step that stops reading'
+        '; round 8: temporary files on another file system than the checkpoint; moves and copies through shutil followed chunk by chunk')
 TRUSTED = ['Coq 8.16.1 kernel + vm_compute', 'harness/p08.py fault injector (wraps open/os.rename/os.makedirs in the stream module namespace of the child) and oracle',
            'POSIX rename is atomic and data handed to the OS by flush survives a process kill (OS facts; power loss is out of scope)']
 ASSUMES = ['the checkpoint directory does not contain a stream.ndjson from another flow beforehand']
